@@ -49,7 +49,7 @@ func c04(r *hx.Run) {
 	fx.Quiet()
 	client, v := stdClient()
 	delta := v.P.MaxOperationTimeDelta
-	r.Rule = "(i) every history of <=3 operations after the create (chain-building alphabet, coordinates 2.0,2.1,3.0) that the reference (and, checked, the real processor) resolves as deactivated is extended by every 1 (all pool operations incl. forged and creates; anchored later, or unpublished with a later / earlier time stamp) and every 2 (legitimate alphabet; thorough: all) later-anchored operations: result must stay deactivated, empty, without commitments and otherwise unchanged; (ii) for each such state a real DocumentHandler with its default decorator must refuse every non-create request and leave queue and unpublished store untouched; (iii) for every history with a recover, removing every subset of updates anchored at or before the last applied recover must not change the result. Non-trivial: distinct (base state, extension) pairs whose extension parses."
+	r.Rule = "(i) every history of <=3 operations after the create (chain-building alphabet, coordinates 2.0,2.1,3.0) that the reference (and, checked, the real processor) resolves as deactivated is extended by every 1 (all pool operations incl. forged and creates; anchored later, or unpublished with a later / earlier time stamp) and every 2 (legitimate alphabet; thorough: all) later-anchored operations: result must stay deactivated, empty, without commitments and otherwise unchanged; (ii) for each such state a real DocumentHandler with its default decorator must refuse every non-create request and leave queue and unpublished store untouched; (iii) for every history with a recover, removing every subset of updates anchored at or before the last applied recover must not change the result; (iv) every history of <=3 published / unpublished operations over updates and recovers that re-commit to an update commitment used before equals the reference. Non-trivial: distinct (base state, extension) pairs whose extension parses."
 	pool := fx.NewPool(fx.Ed25519, fx.SHA256, "ok")
 	all := opIDs(pool, func(*fx.PoolOp) bool { return true })
 	legit := opIDs(pool, isLegit)
@@ -110,6 +110,14 @@ func c04(r *hx.Run) {
 		}
 		mu.Unlock()
 	})
+	// (iv) recovers that re-commit to an update commitment used before, published or unpublished: every history is compared with
+	// the reference (an update anchored at or before the recover's time stamp fits its commitment and must not be applied)
+	{
+		e2 := &histEnum{pool: pool, alpha: []string{"U01", "U12", "U01b", "R0>u0", "R0>u1", "R01", "V01"}, coords: []Coord{{2, 0}, {2, 1}, {3, 0}}, depth: 3, pubModes: "pu", fixed: fixedC}
+		e2.run(r, func(placed []fx.Placed) {
+			compareWithModel(r, "recommit", client, pool, placed, delta)
+		})
+	}
 	r.Extra["deactivated_base_states"] = len(deactStates)
 	r.Extra["recover_base_states"] = len(recoverStates)
 	if len(deactStates) == 0 {
